@@ -7,6 +7,8 @@
 mod inplace;
 mod lowerq;
 mod solver;
+mod termops;
+mod terms;
 mod wrapdb;
 
 #[global_allocator]
@@ -44,6 +46,7 @@ fn main() {
             "solve" => solver::run_job(&line),
             "inplace" => inplace::run_job(&line),
             "lower" => lowerq::run_job(&line),
+            "terms" => termops::run_job(&line),
             _ => {
                 eprintln!("unknown mode {}", mode);
                 std::process::exit(2);
